@@ -33,7 +33,7 @@ static int c14_main(int argc,char **argv){
     int n=split(line,tok,32);
     if(n==0){ free(line); continue; }
     if(!strcmp(tok[0],"case")){
-      printf("== case %s\n",n>1?tok[1]:"?"); fflush(stdout);
+      printf("== case %s\n",n>1?tok[1]:"?"); fflush(stdout); case_watchdog();
     }else if(!strcmp(tok[0],"cfg")&&n>=9){
       struct ovectl_ratemanage2_arg ai; int rc;
       int ch=atoi(tok[1]); long rate=atol(tok[2]), nom=atol(tok[3]);
